@@ -73,6 +73,8 @@ func main() {
 		}
 		if len(os.Args) > 3 && os.Args[3] == "readers" {
 			props.RaceReaders(reps)
+		} else if len(os.Args) > 3 && os.Args[3] == "solver" {
+			props.RaceSolver(reps)
 		} else {
 			props.RaceWorkload(reps)
 		}
